@@ -78,7 +78,8 @@ class UB:
             return 64
         return 64
 
-    def ub(self, e, depth=0, seen=None):
+    def ub(self, e, depth=0, seen=None, pure=frozenset()):
+        """`pure`: phis on the path to here through phi inputs only (a value merely carried round a loop adds nothing)"""
         seen = seen if seen is not None else set()
         if depth > 30:
             return BIG
@@ -128,12 +129,14 @@ class UB:
             return max(self.ub(e[2], depth + 1, seen), self.ub(e[3], depth + 1, seen))
         if k == 'phi':
             bits = e[2].ty[1] if e[2].ty and e[2].ty[0] == 'int' else 64
+            if e[1] in pure:
+                return 0                        # carried unchanged round the loop: bounded by the other inputs
             if e[1] in seen:
-                return (1 << bits) - 1          # loop-carried: only the type bounds it (masks/shifts may tighten)
+                return (1 << bits) - 1          # loop-carried through arithmetic: only the type bounds it
             seen = seen | {e[1]}
             m = 0
             for x, _ in self.P.phi_inputs(e):
-                m = max(m, self.ub(x, depth + 1, seen))
+                m = max(m, self.ub(x, depth + 1, seen, pure | {e[1]}))
             return min(m, (1 << bits) - 1)
         if k == 'load':
             ins = e[2]
